@@ -148,6 +148,8 @@ def make_index(kind, name="self.index"):
         return None
     if kind == "index":
         return SO.make_component(Index, name, "i", "index")
+    if kind == "unnamed_index":
+        return SO.make_component(Index, name, None, "index")
     if kind == "index_named_like_a_column":
         return SO.make_component(Index, name, LABELS[0], "index")
     n = int(kind[-1]) if kind[-1].isdigit() else 2
@@ -648,6 +650,8 @@ class SetIndex(SchemaOp):
 RESET_REQUESTS = [("none", None, False), ("index", None, False), ("index", None, True), ("index", ["i"], False), ("index", ["zz"], False), ("index", [], False),
                   ("multi2", None, False), ("multi2", ["i"], False), ("multi2", ["j"], True), ("multi2", ["zz"], False), ("multi3", ["i"], False), ("multi3", ["k"], True),
                   # a level named like an existing column: DataFrame.reset_index refuses ("cannot insert a, already exists") unless drop=True
+                  # an index without a name: DataFrame.reset_index calls the new column "index"
+                  ("unnamed_index", None, False),
                   ("index_named_like_a_column", None, False), ("index_named_like_a_column", None, True),
                   ("multi_with_a_level_named_like_a_column", None, False), ("multi_with_a_level_named_like_a_column", ["i"], False)]
 
@@ -735,11 +739,13 @@ class ResetIndex(SchemaOp):
         if not out["returns_a_new_schema"]:
             return out
         rc = attr(result, "columns")
-        out["columns.keys"] = isinstance(rc, dict) and set(rc.keys()) == set(self.labels) | set(moved) and len(rc) == len(self.labels) + len(moved)
+        keyof = lambda n: "index" if n is None else n  # noqa: E731  (DataFrame.reset_index: an unnamed index becomes the column "index")
+        moved_keys = [keyof(n) for n in moved]
+        out["columns.keys"] = isinstance(rc, dict) and set(rc.keys()) == set(self.labels) | set(moved_keys) and len(rc) == len(self.labels) + len(moved)
         if not out["columns.keys"]:
             return out
         # DataFrame.reset_index inserts the levels, in level order, BEFORE the existing columns
-        out["columns.order_mirrors_dataframe_reset_index"] = list(rc.keys()) == moved + self.labels
+        out["columns.order_mirrors_dataframe_reset_index"] = list(rc.keys()) == moved_keys + self.labels
         # the existing columns: untouched, same relative order
         old_only = DictObj((k, rc[k]) for k in rc if k in self.labels)
         self.common(out, result, self_, kept(self_), index="built", rc=old_only)
@@ -749,10 +755,10 @@ class ResetIndex(SchemaOp):
         for s, n in zip(srcs, names):
             if n not in moved:
                 continue
-            col = rc[n]
+            col = rc[keyof(n)]
             out["new_column.is_a_column"] = And(out.get("new_column.is_a_column", True), isinstance(col, Obj) and col.cls is Column)
             if isinstance(col, Obj) and col.cls is Column:
-                level_matches(out, "new_column", col, s, n, carried)
+                level_matches(out, "new_column", col, s, keyof(n), carried)
                 for p in ctor_params(Column):
                     if p not in carried:
                         out[f"new_column.default_{p}"] = And(out.get(f"new_column.default_{p}", True), py_eq(attr(col, stored(p)), dflt[p]))
